@@ -1,0 +1,36 @@
+//go:build verif
+
+package matrix
+
+// Contracts for the verification machinery in /verif (vcgo). Comment-only.
+//
+// Convention established by MulV: m[j] is column j, so entry (row r, column c) is m[c][r].
+
+//@ func Dot
+//@   mode real
+//@   ensures [C20,C12] def: result == v1[0]*v2[0] + v1[1]*v2[1] + v1[2]*v2[2]
+
+//@ func Vector3.MulS
+//@   mode real
+//@   ensures [C20] def: forall k int :: 0 <= k && k < 3 ==> result[k] == v[k]*s
+
+//@ func Matrix3.Transpose
+//@   mode real
+//@   ensures [C20,C12] def: forall r int, c int :: 0 <= r && r < 3 && 0 <= c && c < 3 ==> result[c][r] == m[r][c]
+
+//@ func Matrix3.MulV
+//@   mode real
+//@   ensures [C20,C12] def: forall r int :: 0 <= r && r < 3 ==> result[r] == m[0][r]*v[0] + m[1][r]*v[1] + m[2][r]*v[2]
+
+//@ func Matrix3.MulM
+//@   mode real
+//@   ensures [C20,C12] product: forall r int, c int :: 0 <= r && r < 3 && 0 <= c && c < 3 ==> result[c][r] == m[0][r]*o[c][0] + m[1][r]*o[c][1] + m[2][r]*o[c][2]
+
+//@ func Matrix3.Inverse
+//@   mode real
+//@   modular
+//@   panics_when [C20,C12] singular: m[0][0]*(m[1][1]*m[2][2] - m[2][1]*m[1][2]) - m[1][0]*(m[0][1]*m[2][2] - m[2][1]*m[0][2]) + m[2][0]*(m[0][1]*m[1][2] - m[1][1]*m[0][2]) == 0
+//@   ensures [C20,C12] right-inverse: forall r int, c int :: 0 <= r && r < 3 && 0 <= c && c < 3 ==> m[0][r]*result[c][0] + m[1][r]*result[c][1] + m[2][r]*result[c][2] == ite(r == c, 1.0, 0.0)
+//@   ensures [C20,C12] left-inverse: forall r int, c int :: 0 <= r && r < 3 && 0 <= c && c < 3 ==> result[0][r]*m[c][0] + result[1][r]*m[c][1] + result[2][r]*m[c][2] == ite(r == c, 1.0, 0.0)
+
+//@ lemma [C20] mulm-assoc-v mode=real (a Matrix3, b Matrix3, v Vector3): same(a.MulM(b).MulV(v), a.MulV(b.MulV(v)))
